@@ -47,21 +47,27 @@ def model_line(c):
     if u == 'spav':
         return '%d (%s %d)' % (U['spav'], ap_sx(c['votes']), c['n'])
     if u == 'score':
-        return '%d (%s %s %d)' % (U['score_voting'], cfg_sx(c['cfg']), sp_sx(c['votes']), c['n'])
+        # wave 6: the flagged units of Units_C12.v with every repair applied (fixes/C12-truncation-middle,
+        # C12-mj-default-exhausted, C12-score-counted)
+        return '%d (%s %s %s %d)' % (BLOCK['C12'] + 2, REPAIRS(c), cfg_sx(c['cfg']), sp_sx(c['votes']), c['n'])
     if u == 'mj':
-        return '%d (%d %s %s %d)' % (U['mj'], 1 if c['plus'] else 0, cfg_sx(dict(c['cfg'], fn='median_low')), sp_sx(c['votes']), c['n'])
+        return '%d (%s %d %s %s %d)' % (BLOCK['C12'] + 3, REPAIRS(c), 1 if c['plus'] else 0, cfg_sx(dict(c['cfg'], fn='median_low')), sp_sx(c['votes']), c['n'])
     if u == 'star' and c.get('unscored', 'none') == 'none':
         return '%d (%s %d)' % (BLOCK['C12'], sp_sx(c['votes']), c['n'])
     if u == 'alloc':
         # Model/AllocScore.v: (mode quota tie-orders votes n prev_gains max_seats)
-        return '%d (%d %s %s %s %d %s %s)' % (
-            BLOCK['C12'] + 1, 1 if c.get('mode') == 'dist' else 0, {'hare': '(1)', 'droop': '(3)'}[c['quota']],
+        return '%d (%s %d %s %s %s %d %s %s)' % (
+            BLOCK['C12'] + 4, '(1 1)', 1 if c.get('mode') == 'dist' else 0, {'hare': '(1)', 'droop': '(3)'}[c['quota']],
             sx(tie_orders(c)), sx([[[[cc, q(s)] for cc, s in sorted(b)], q(w)] for b, w in c['votes']]), c['n'],
             sx([[k, v] for k, v in c.get('prev', [])]), sx([[k, v] for k, v in c.get('max', [])]))
     return '%d (%s %d)' % (U['pav'], '()', 0)          # STAR with an unscored_value: no model (placeholder line)
 
 
 _ORDERS = {}
+
+
+def REPAIRS(c):
+    return '(1 1 1)'
 
 
 def tie_orders(c):
@@ -218,8 +224,10 @@ def jr_ok(votes, n, winners):
 def corrected_lists(cf, votes):
     """independent re-implementation of the documented corrections: per candidate the sorted list of its scores after
     min_count (fewer scores -> min_count copies of bottom_value), unscored_value (one copy per voter who did not score it)
-    and truncation (the c lowest and the c highest scores dropped; c = truncation when >= 1, else int(voters * truncation))
-    - C12_score_corrections / C12_score_truncation.  A candidate left without scores has an empty list"""
+    and truncation (the c lowest and the c highest scores dropped; c = truncation when >= 1, else int(voters * truncation),
+    but never past the middle: at most (scores - 1) // 2 at either end, repair C12-truncation-middle)
+    - C12_score_corrections / C12_score_truncation / C12_truncation_keeps_middle.  A candidate is left without scores only
+    when it had none (an empty list)"""
     cands = sorted({cc for b, _ in votes for cc, _ in b})
     nv = sum(w for _, w in votes)
     tr = q(cf['trunc'])
@@ -240,7 +248,8 @@ def corrected_lists(cf, votes):
         lst.sort()
         if tr > 0:
             cut = int(tr) if tr >= 1 else int((nv if nv else n_scores) * tr)
-            lst = lst[cut:len(lst) - cut] if len(lst) > 2 * cut else []
+            cut = max(0, min(cut, (len(lst) - 1) // 2))
+            lst = lst[cut:len(lst) - cut]
         out[cc] = lst
     return out
 
@@ -269,12 +278,17 @@ def mj_lists(cf, votes):
 def mj_ref(lists):
     """majority judgment for one seat as documented (Balinski-Laraki): the highest lower median wins; equal medians:
     remove one median grade from every candidate still level and compare the new medians, the candidates that fall
-    behind are out for good.  None when the outcome is undefined (a lasting tie, or a leader runs out of scores)."""
+    behind are out for good; a level candidate that has run out of grades is behind those that still have some
+    (repair C12-mj-default-exhausted).  None when the outcome is undefined (a lasting tie)."""
     cur = {cc: list(l) for cc, l in lists.items()}
     alive = set(cur)
     while True:
         if any(not cur[cc] for cc in alive):
-            return None
+            alive = {cc for cc in alive if cur[cc]}
+            if not alive:
+                return None
+            if len(alive) == 1:
+                return next(iter(alive))
         med = {cc: cur[cc][(len(cur[cc]) - 1) // 2] for cc in alive}
         top = max(med.values())
         alive = {cc for cc in alive if med[cc] == top}
@@ -296,18 +310,21 @@ def mj_removal_seq(l):
 
 
 def mj_seq_cmp(sa, sb):
-    """lexicographic comparison of two removal sequences: -1 / 1 at the first entry where they differ; None when one of
-    them ends before any difference (the order of the two candidates is then undefined)"""
+    """lexicographic comparison of two removal sequences: -1 / 1 at the first entry where they differ; a sequence that
+    ends before any difference (the candidate has run out of grades) is below the longer one (repair
+    C12-mj-default-exhausted); None when the sequences are the same"""
     for x, y in zip(sa, sb):
         if x != y:
             return -1 if x < y else 1
+    if len(sa) != len(sb):
+        return -1 if len(sa) < len(sb) else 1
     return None
 
 
 def mj_top(lists, n):
     """majority judgment for n seats as documented, declaratively: the set of n candidates each of which is
     lexicographically strictly above every candidate outside the set (C12_mj_seats_default); None when no such set
-    exists (an unbreakable tie at the cut, or a candidate at the cut runs out of grades)"""
+    exists (an unbreakable tie at the cut: equal removal sequences)"""
     cands = sorted(lists)
     if n >= len(cands):
         return set(cands)
@@ -425,8 +442,10 @@ def star_seats_spec(c, v):
 
 def alloc_ref(votes, n, quota_name):
     """independent allocated-score count: per seat the highest weighted score sum wins and one quota of its
-    strongest supporters (highest score for the winner first, proportional cut at the boundary) is spent.
-    Returns None when a tie or an exhausted electorate makes the outcome undefined."""
+    strongest supporters (highest score for the winner first, proportional cut at the boundary) is spent; once no
+    remaining ballot scores anybody the candidates not yet seated are level at zero (repair
+    C12-allocated-score-exhausted).  Returns None when a tie makes the outcome undefined."""
+    every = sorted({cc for b, _ in votes for cc, _ in b})
     cur = [[dict(b), q(w)] for b, w in votes]
     total = sum(q(w) for _, w in votes)
     quota = Fraction(total, n) if quota_name == 'hare' else Fraction(int(Fraction(total, n + 1)) + 1)
@@ -438,7 +457,9 @@ def alloc_ref(votes, n, quota_name):
                 if cc not in elected:
                     sums[cc] = sums.get(cc, 0) + q(sc) * w
         if not sums:
-            return None
+            sums = {cc: 0 for cc in every if cc not in elected}
+            if not sums:
+                return elected
         top = max(sums.values())
         best = [cc for cc, x in sums.items() if x == top]
         if len(best) != 1:
@@ -461,8 +482,6 @@ def alloc_ref(votes, n, quota_name):
                 break
         cur = [[{cc: sc for cc, sc in b.items() if cc != win}, w] for b, w in cur if w > 0]
         cur = [x for x in cur if x[0]]
-        if not cur and len(elected) < n:
-            return None
     return elected
 
 
@@ -600,6 +619,12 @@ def spec(c, io, mo):
         c['_class'] = u + '-crash'
         return '%s raises %s' % (u, c.get('_exc'))
     if u == 'alloc' and c.get('mode') == 'dist':
+        if v[0] == 0:
+            # C08 for the distributor: positive seat numbers that sum to the seats to fill (no more than that under maxima)
+            seats = [k for _, k in v[1]]
+            if any(k <= 0 for k in seats) or sum(seats) > c['n'] or (not c.get('max') and sum(seats) != c['n']):
+                c['_class'] = 'alloc-shape'
+                return 'allocated score distributes %s for %d seats' % (v[1], c['n'])
         return None
     if u == 'alloc' and v[0] == 0 and not any(isinstance(r, list) for r in v[1]):
         ref = alloc_ref(c['votes'], c['n'], c['quota'])
@@ -615,12 +640,18 @@ def spec(c, io, mo):
             return ('allocated score seats %s in round %d with weighted score sum %s while %s has %s%s'
                     % (win, rnd, mine, other, top, ' (it was level with an earlier winner when that one was seated)' if tied else ''))
     if u == 'alloc' and v[0] == 0:
+        # C08_shape_allocated_score: min(n, candidates) entries; plain winners distinct candidates of the votes; a tie
+        # stands last, is listed once per seat it contests, has more members than those seats and none of the winners
         cands = {cc for b, _ in c['votes'] for cc, _ in b}
         res = v[1]
-        flat = [x for r in res if not isinstance(r, list) for x in [r]]
-        if len(cands) >= c['n'] and (len(res) != c['n'] and not any(isinstance(r, list) for r in res)) or len(set(flat)) != len(flat):
+        plain = [r for r in res if not isinstance(r, list)]
+        ties = [tuple(sorted(r)) for r in res if isinstance(r, list)]
+        bad = (len(res) != min(c['n'], len(cands)) or len(set(plain)) != len(plain) or any(x not in cands for x in plain)
+               or len(set(ties)) > 1 or any(isinstance(r, list) for r in res[:len(plain)])
+               or (ties and (len(ties[0]) <= len(ties) or set(ties[0]) & set(plain) or not set(ties[0]) <= cands)))
+        if bad:
             c['_class'] = 'alloc-shape'
-            return 'allocated score returns %s for %d seats' % (res, c['n'])
+            return 'allocated score returns %s for %d seats and %d candidates' % (res, c['n'], len(cands))
     return None
 
 
@@ -648,8 +679,9 @@ def known_class(c, io, mo):
         return None          # not the recorded behaviour any more (allocated score: the model reproduces the crash / shape)
     if c.get('_class') == 'alloc-crash' and common.parse_sx(io)[1] not in (common.E['VALUE'], common.E['INDEX']):
         return None
-    return {'trunc-empty': 'C12-truncation-empties', 'mj-default-stats': 'C12-mj-default-stats', 'alloc-crash': 'C12-allocated-score-crash', 'alloc-shape': 'C12-allocated-score-crash', 'alloc-tie-second': 'C12-allocated-score-tie-second',
-            'star-crash': 'C12-star'}.get(c.get('_class'))
+    # wave 6: trunc-empty, mj-default-stats, alloc-crash, alloc-shape are repaired (status fixed): a crash or a
+    # mis-shaped selection is a violation again
+    return {'alloc-tie-second': 'C12-allocated-score-tie-second', 'star-crash': 'C12-star'}.get(c.get('_class'))
 
 
 def nontrivial(c):
